@@ -113,6 +113,9 @@ def replay_coexec(prop, path, engines_for):
     if case is None:
         print("replay file names an obligation, not an input:", payload.get("theorem_or_correspondence"))
         return 1
+    if payload.get("part") == "deleg":
+        from . import deleg_part
+        return deleg_part.replay(prop, payload, path)
     if payload.get("part") == "tuples":
         from . import tuple_part as T
         from .layer_a import proj_default
